@@ -150,14 +150,17 @@ def c10Step (sin sobs : Json) : Option String × String :=
   let allStatuses := statusesOf all
   let bodies := (evs.filter fun e => e.name == "writeBody").length
   if (sobs.getObjVal? "panic").toOption.isSome then (none, "") else     -- crashes are C11's
+  let touched : List String := jIris (jget sobs "headersTouched")
   if !handled then
-    (if allStatuses.isEmpty && bodies == 0 && err == "nil" then none else some "not handled, yet something was written or an error returned", "")
+    (if allStatuses.isEmpty && bodies == 0 && err == "nil" && touched.isEmpty then none else some s!"not handled, yet something was written (headers changed: {touched}) or an error returned", "")
   else if err != "nil" && requiredMissing entry (toJ (jget (jget sin "body") "v")) evs sin then
     (some "the activity lacks a required object/target: the documented answer is 400, not an error", "")
   else if err != "nil" then
     -- a failing body write is reported after the status went out; nothing else may be written
     let writeFailed := evs.any fun e => e.name == "writeBody" && (isErr e.resp || e.resp == Json.mkObj [("ok", false)])
-    (if libStatuses.isEmpty || writeFailed then none else some s!"error returned but the library had already written status {libStatuses}", "")
+    (if !(libStatuses.isEmpty || writeFailed) then some s!"error returned but the library had already written status {libStatuses}"
+     else if libStatuses.isEmpty && !touched.isEmpty then some s!"error returned and no status written, yet the library had changed the response headers {touched}"
+     else none, "")
   else
     match allStatuses with
     | [s] =>
